@@ -48,7 +48,9 @@ def r_emitters_skip_allowed_in_order(r, prog):
         allowed_tgt = arm(sw, ai)
         # writes: calls that take self.output (write_fmt, serialize*, emit_snippet, Serializer::new)
         writes = [c for c in f.calls() if c.bb in body and (c.name() in ('write_fmt', 'write_all', 'write', 'emit_snippet', 'serialize_struct', 'serialize_field', 'end', 'new')
-                                                       and ('write' in c.name() or 'emit' in c.name() or 'serial' in c.name().lower() or 'Serializer' in (c.resolved or '')))]
+                                                       and ('write' in c.name() or 'emit' in c.name() or 'serial' in c.name().lower() or 'Serializer' in (c.resolved or ''))
+                                                       # any other method of the emitter may write (a helper extracted from the loop body): it is held to the same rule
+                                                       or (c.resolved or c.callee or '').startswith(EM))]
         if len(writes) < 3:
             raise AnchorMissing('write calls in %s (found %d)' % (nm, len(writes)))
         bad = [c for c in writes if c.bb in f.reachable(allowed_tgt, blocked=[head]) or not f.dominates(sw['bb'], c.bb)]
